@@ -142,11 +142,14 @@ impl<'a> StmtIterator<'a> {
                             max,
                             inner,
                         } => {
-                            self.inner_state = StmtIteratorState::StartLoop(LoopState {
-                                variable,
-                                max: max.eval(ctx)?,
-                                stmts: inner,
-                            })
+                            let max = max.eval(ctx)?;
+                            if max > 0 {
+                                self.inner_state = StmtIteratorState::StartLoop(LoopState {
+                                    variable,
+                                    max,
+                                    stmts: inner,
+                                })
+                            }
                         }
                         Stmt::ResetRandom => ctx.reset_random_seed(),
                         Stmt::While { condition, inner } => {
